@@ -541,6 +541,7 @@ class Ctx:
         self.other_hit = False
         self.max_degree = None     # polynomials above this degree are forked on without asking the solver
         self.blind_forks = 0
+        self._fo_suppressed = False
         self.split = tuple(prefix) if prefix else None   # (i, N, depth)
         self.fork_outcomes = []
         self.skipped = 0
@@ -855,6 +856,8 @@ class Ctx:
     def _fork_outcome(self, v):
         """partitioned exploration: sub-instance i of N follows a path only if the hash of its first D fork outcomes
         is i (mod N); the test is made as soon as the D-th fork is taken."""
+        if self._fo_suppressed:
+            return
         fo = self.fork_outcomes
         fo.append(v)
         if self.split and len(fo) == self.split[2]:
@@ -895,7 +898,15 @@ class Ctx:
                 v = int(v)
                 self.log.append(_Entry("cand", None, v, level=self.level))
                 self.pos += 1
-            if q == v:
+            self._fo_suppressed = True
+            try:
+                hit = q == v
+            finally:
+                self._fo_suppressed = False
+            if hit:
+                # for the partitioned exploration the outcome of a concretisation is the VALUE (canonical), not the
+                # position of the value in the model-dependent order in which candidates were proposed
+                self._fork_outcome(v % 65521)
                 return v
         raise Inconclusive("concretize: too many values")
 
